@@ -542,7 +542,7 @@ theorem collToList_good {k : Bool} {uns : Bool} {ie oe conv} {v r : Value}
     (hel : ∀ es, elemsOf E v = .ok es → MembersK k es ie)
     (h : applyStep E rec (.collToList oe conv) v = .ok r) : vgood k r := by
   have hnd : oe.isDyn = false := not_isDyn_of_noDyn hdo
-  simp only [applyStep, hnd] at h
+  simp only [applyStep, hnd, hdo] at h
   split at h
   · rename_i hlk
     simp at h; subst h
@@ -570,7 +570,7 @@ theorem collToSet_good {k : Bool} {uns : Bool} {ie oe conv} {v r : Value}
     (hel : ∀ es, elemsOf E v = .ok es → MembersK k es ie)
     (h : applyStep E rec (.collToSet oe conv) v = .ok r) : vgood k r := by
   have hnd : oe.isDyn = false := not_isDyn_of_noDyn hdo
-  simp only [applyStep, hnd] at h
+  simp only [applyStep, hnd, hdo] at h
   obtain ⟨es, hes, h⟩ := Res.bind_eq_ok h
   obtain ⟨es', hes', h⟩ := Res.bind_eq_ok h
   have hm := converted_members hU hrec (post := stripNull) (fun _ hv => stripNull_ty' hv)
@@ -592,7 +592,7 @@ theorem collToMap_good {k : Bool} {uns : Bool} {ie oe conv} {ks : List String} {
     (hel : MembersK k (ps.map fun p => ⟨ie, p⟩) ie)
     (h : applyStep E rec (.collToMap oe conv) ⟨.map ie, .smap ks ps⟩ = .ok r) : vgood k r := by
   have hnd : oe.isDyn = false := not_isDyn_of_noDyn hdo
-  simp only [applyStep, hnd, elemsOf, keysOf] at h
+  simp only [applyStep, hnd, hdo, elemsOf, keysOf] at h
   obtain ⟨es, hes, h⟩ := Res.bind_eq_ok h
   simp at hes; subst hes
   obtain ⟨es', hes', h⟩ := Res.bind_eq_ok h
